@@ -115,6 +115,9 @@ pub struct WorsePolicy {
     pub inner: u64,
     pub proposals: u64,
     pub base: f64,
+    /// when set, an accepted worse move is followed by a proposal of the base score (an improvement, always kept), so that
+    /// every trial starts from exactly `base` and differences far below one ulp of a drifting score stay representable
+    pub recentre: bool,
 }
 
 impl Policy for WorsePolicy {
@@ -131,6 +134,9 @@ impl Policy for WorsePolicy {
             None => return None,
         };
         let l = (((k - 1) / self.inner.max(1)) as usize).min(self.d_per_loop.len() - 1);
+        if self.recentre && cur != self.base {
+            return Some(self.base);
+        }
         Some(cur - self.d_per_loop[l])
     }
 }
